@@ -496,6 +496,11 @@ type c08Tap struct {
 	// log index of the first add seen per payment hash (overlap
 	// measurement).
 	firstAdd map[[32]byte]int
+
+	// link flap support: messages on a held edge wait in the receiving
+	// server's goroutine; a Ping is the harness' queue sentinel.
+	hold     [c08NumEdges]chan struct{}
+	sentinel chan string
 }
 
 func c08NewTap(abID, bcID lnwire.ChannelID, plans []*c08CutPlan) *c08Tap {
@@ -503,6 +508,7 @@ func c08NewTap(abID, bcID lnwire.ChannelID, plans []*c08CutPlan) *c08Tap {
 		abID: abID, bcID: bcID, plans: plans,
 		firstAdd:  make(map[[32]byte]int),
 		lastEvent: time.Now(),
+		sentinel:  make(chan string, 16),
 	}
 
 	return t
@@ -527,14 +533,37 @@ func (t *c08Tap) newPhase(p int) {
 	t.lastEvent = time.Now()
 }
 
-// reconnect is called while both links of a channel are down (link flap):
-// the cut heals, a new connection epoch starts on both edges.
+// disconnect drops everything on both edges of a channel from now on.
+func (t *c08Tap) disconnect(e c08Edge) {
+	t.mu.Lock()
+	defer t.mu.Unlock()
+
+	t.cut[e], t.cut[e.reverse()] = true, true
+}
+
+// release lets the messages held on both edges of a channel through.
+func (t *c08Tap) release(e c08Edge) {
+	t.mu.Lock()
+	defer t.mu.Unlock()
+
+	for _, x := range []c08Edge{e, e.reverse()} {
+		if t.hold[x] != nil {
+			close(t.hold[x])
+			t.hold[x] = nil
+		}
+	}
+}
+
+// reconnect is called while both links of a channel are down (link flap)
+// and the servers' queues are drained: the cut heals, a new connection epoch
+// starts on both edges, and what the new links send is held until release.
 func (t *c08Tap) reconnect(e c08Edge) {
 	t.mu.Lock()
 	defer t.mu.Unlock()
 
 	for _, x := range []c08Edge{e, e.reverse()} {
 		t.cut[x] = false
+		t.hold[x] = make(chan struct{})
 		t.epoch[x]++
 		t.log = append(t.log, c08Event{
 			seq: len(t.log), phase: t.phase, epoch: t.epoch[x],
@@ -542,6 +571,20 @@ func (t *c08Tap) reconnect(e c08Edge) {
 		})
 	}
 	t.lastEvent = time.Now()
+}
+
+// cutChannel returns the channel (0: AB, 1: BC) with a dead edge, or -1.
+func (t *c08Tap) cutChannel() int {
+	t.mu.Lock()
+	defer t.mu.Unlock()
+
+	for e, c := range t.cut {
+		if c {
+			return e / 2
+		}
+	}
+
+	return -1
 }
 
 func (t *c08Tap) epochs() [c08NumEdges]int {
@@ -602,6 +645,15 @@ func (t *c08Tap) interceptor(server string) messageInterceptor {
 			cid, ev.kind = msg.ChanID, c08PeerErr
 		case *lnwire.Warning:
 			cid, ev.kind = msg.ChanID, c08PeerErr
+		case *lnwire.Ping:
+			// harness sentinel: everything queued before it has
+			// been taken off this server's queue.
+			select {
+			case t.sentinel <- server:
+			default:
+			}
+
+			return true, nil
 		default:
 			// Not a message the mock server can route; swallow it
 			// (readHandler would abort the server goroutine).
@@ -621,6 +673,13 @@ func (t *c08Tap) interceptor(server string) messageInterceptor {
 			ev.edge = c08AtoB
 		default:
 			ev.edge = c08CtoB
+		}
+
+		t.mu.Lock()
+		h := t.hold[ev.edge]
+		t.mu.Unlock()
+		if h != nil {
+			<-h
 		}
 
 		t.mu.Lock()
